@@ -242,7 +242,7 @@ def r3(ctx):
     rl = {}
     for bi, t in b.calls():
         n = short(t.callee() or "")
-        if re.search(r"ops::Index>::index$", n) and "Range{" in fmt(p.operand(t.args[0])) and fmt_short(p.operand(t.args[0])).startswith("slice::to_vec(index::index(data"):
+        if re.search(r"ops::Index>::index$", n) and "Range{" in fmt(p.operand(t.args[0])) and re.match(r"(slice::to_vec\()?index::index\(data", fmt_short(p.operand(t.args[0]))):
             base = p.operand(t.args[0])
             # only the 23-byte static header vector
             bl = a.length(base)
